@@ -763,6 +763,7 @@ package gohlslib
 //@   modifies *
 //@   ensures (!old(track.firstRandomAccessReceived) && !exists(i, 0 <= i && i < len(au) && mod(au[i][0], 32) == 5)) ==>
 //@        (result == nil && calls("muxerSegmenter.fmp4WriteSample") == 0 && !track.firstRandomAccessReceived)
+//@   ensures (result == nil && old(s.pendingParamsChange)) ==> (s.pendingParamsChange || (calls("muxerSegmenter.fmp4WriteSample") == 1 && callarg("muxerSegmenter.fmp4WriteSample", 0, 3) == 1))
 //@   ensures calls("muxerSegmenter.fmp4WriteSample") <= 1
 //@   ensures calls("muxerSegmenter.fmp4WriteSample") == 1 ==> (callarg("muxerSegmenter.fmp4WriteSample", 0, 1) == track
 //@        && (callarg("muxerSegmenter.fmp4WriteSample", 0, 2) == 1) == exists(i, 0 <= i && i < len(au) && mod(au[i][0], 32) == 5))
@@ -790,6 +791,7 @@ package gohlslib
 //@   modifies *
 //@   ensures (!old(track.firstRandomAccessReceived) && !exists(i, 0 <= i && i < len(au) && mod(div(au[i][0], 2), 64) >= 19 && mod(div(au[i][0], 2), 64) <= 21)) ==>
 //@        (result == nil && calls("muxerSegmenter.fmp4WriteSample") == 0 && !track.firstRandomAccessReceived)
+//@   ensures (result == nil && old(s.pendingParamsChange)) ==> (s.pendingParamsChange || (calls("muxerSegmenter.fmp4WriteSample") == 1 && callarg("muxerSegmenter.fmp4WriteSample", 0, 3) == 1))
 //@   ensures calls("muxerSegmenter.fmp4WriteSample") <= 1
 //@   ensures calls("muxerSegmenter.fmp4WriteSample") == 1 ==> (callarg("muxerSegmenter.fmp4WriteSample", 0, 1) == track
 //@        && (callarg("muxerSegmenter.fmp4WriteSample", 0, 2) == 1) == exists(i, 0 <= i && i < len(au) && mod(div(au[i][0], 2), 64) >= 19 && mod(div(au[i][0], 2), 64) <= 21))
@@ -810,6 +812,7 @@ package gohlslib
 //@   nocallpre
 //@   requires fmp4Pre(s, track) && is(track.Codec, *codecs.VP9) && ref(track.Codec) != 0
 //@   modifies *
+//@   ensures (result == nil && old(s.pendingParamsChange)) ==> (s.pendingParamsChange || (calls("muxerSegmenter.fmp4WriteSample") == 1 && callarg("muxerSegmenter.fmp4WriteSample", 0, 3) == 1))
 //@   ensures calls("muxerSegmenter.fmp4WriteSample") <= 1
 //@   ensures (calls("muxerSegmenter.fmp4WriteSample") == 1 && callarg("muxerSegmenter.fmp4WriteSample", 0, 3) == 1) ==> (callarg("muxerSegmenter.fmp4WriteSample", 0, 2) == 1 && !s.pendingParamsChange)
 //@   ensures (calls("muxerSegmenter.fmp4WriteSample") == 1 && callarg("muxerSegmenter.fmp4WriteSample", 0, 2) == 1 && old(s.pendingParamsChange)) ==> callarg("muxerSegmenter.fmp4WriteSample", 0, 3) == 1
@@ -826,6 +829,7 @@ package gohlslib
 //@   nocallpre
 //@   requires fmp4Pre(s, track) && is(track.Codec, *codecs.AV1) && ref(track.Codec) != 0
 //@   modifies *
+//@   ensures (result == nil && old(s.pendingParamsChange)) ==> (s.pendingParamsChange || (calls("muxerSegmenter.fmp4WriteSample") == 1 && callarg("muxerSegmenter.fmp4WriteSample", 0, 3) == 1))
 //@   ensures calls("muxerSegmenter.fmp4WriteSample") <= 1
 //@   ensures (calls("muxerSegmenter.fmp4WriteSample") == 1 && callarg("muxerSegmenter.fmp4WriteSample", 0, 3) == 1) ==> (callarg("muxerSegmenter.fmp4WriteSample", 0, 2) == 1 && !s.pendingParamsChange)
 //@   ensures (calls("muxerSegmenter.fmp4WriteSample") == 1 && callarg("muxerSegmenter.fmp4WriteSample", 0, 2) == 1 && old(s.pendingParamsChange)) ==> callarg("muxerSegmenter.fmp4WriteSample", 0, 3) == 1
@@ -1047,4 +1051,25 @@ package gohlslib
 //@   loop 1 invariant forall(j, (0 <= j && j < iterpos()) ==> !(hasprefix(iterkey(j), "_HLS_") && has(q, iterkey(j))))
 //@   loop 1 invariant forall(k, has(q, k) ==> exists(j, 0 <= j && j < iterlen() && iterkey(j) == k))
 //@   atcall url.Values.Encode forall(k, has(arg0, k) ==> !hasprefix(k, "_HLS_"))
+//@ end
+
+
+// C10: the segment's EXT-X-PROGRAM-DATE-TIME is bound to the first unit of the LEADING track only
+//@ func clientStreamProcessorMPEGTS.initializeReader$2
+//@   props C10
+//@   nosafety
+//@   noframe
+//@   nocallpre
+//@   requires nolocks()
+//@   ensures calls("clientTimeConvMPEGTS.setNTP") >= 1 ==> isLeadingTrack
+//@   ensures calls("clientTimeConvMPEGTS.setLeadingNTPReceived") >= 1 ==> isLeadingTrack
+//@   ensures calls("clientTimeConvMPEGTS.setNTP") <= 1
+//@ end
+
+//@ func clientStreamProcessorMPEGTS.initializeTrackProcessors
+//@   props C10
+//@   nosafety
+//@   noframe
+//@   nocallpre
+//@   modifies *
 //@ end
